@@ -292,7 +292,7 @@ def run_case(case, observe=None):
 
 def plan(tier, seed):
     quick = tier == "quick"
-    return [("gen", {"shard": i, "n": 90 if quick else 1500, "max_msgs": 12 if quick else 30}) for i in range(16)]
+    return [("gen", {"shard": i, "n": 150 if quick else 1500, "max_msgs": 12 if quick else 30}) for i in range(16)]
 
 
 def run_task(name, kw, ctx):
